@@ -11,6 +11,10 @@ M  (Lean)  port of has_occurs_restriction, XsdElement/XsdAnyElement.is_restricti
 I          the real schema builder: a schema declares a base type B and a derived type D by
            <xs:restriction base="B">; verdict = D carries a restriction error or not
 
+Facets (XsVerif/Model/Facets.lean) and attribute uses (XsVerif/Model/AttrRestriction.lean) have their own ports,
+theorems and generated families: see `facets_family` / `attrs_family` below and harness/lib_c14facets.py,
+harness/lib_c14attrs.py.
+
 Per pair (version, base model, candidate restriction):
   correspondence   I vs M on the direct call D.content.is_restriction(B.content) and on the schema-level
                    verdict; introspected groups vs the generated ASTs; is_emptiable / effective occurs
@@ -33,7 +37,9 @@ from harness import lib_cm14 as c14
 PROPS = 'XsVerif.Props.C14'
 AUDIT = 'XsVerif.Audit.C14'
 LEAN_TARGETS = ['XsVerif.Props.C14', 'drv_c14']
-LEANCHECK = ['XsVerif.Model.Incl', 'XsVerif.Lemmas.Incl', 'XsVerif.Model.Restriction', 'XsVerif.Props.C14']
+LEANCHECK = ['XsVerif.Model.Incl', 'XsVerif.Lemmas.Incl', 'XsVerif.Model.Restriction', 'XsVerif.Model.Facets',
+             'XsVerif.Lemmas.Facets', 'XsVerif.Model.AttrRestriction', 'XsVerif.Lemmas.AttrRestriction',
+             'XsVerif.Props.C14']
 RULE = ('case = (XSD version, base content model, candidate restriction). Bases: the complete family of groups with '
         '≤2 leaves over {a,b,wildcard} nested to depth 2 (seed-independent sample in the quick tier) and seeded random '
         'models (depth ≤3, substitution-group head, elements of a second namespace, wildcards with 5 namespace '
@@ -41,26 +47,39 @@ RULE = ('case = (XSD version, base content model, candidate restriction). Bases:
         'zeroed occurrences of every particle, dropped / added / wrapped / swapped particles, chosen or dropped choice '
         'branches, changed compositor, wildcard→element and element→wildcard, renamed element, changed wildcard '
         'namespace, emptied group). non-trivial = the candidate differs from the base and both types were built '
-        'without structural errors; distinct by canonical JSON. Second part: facet pairs (min/max Inclusive/Exclusive on '
-        'xs:integer over {-1,0,1,2,5}, length/minLength/maxLength on xs:string over {0..3}; base × derived, all kinds '
-        'crossed) judged on integers -4..8 / strings of length 0..5, and attribute pairs (use none/optional/required/'
-        'prohibited × fixed × type × attribute wildcard none/##any/##other/##local/urn:o; base × derived) judged on 8 '
-        'attribute sets; has_occurs_restriction on every pair of ranges over {0..3,∞}')
+        'without structural errors; distinct by canonical JSON. Facets: chains of 2-3 restriction steps over '
+        'xs:integer / decimal / short / nonNegativeInteger / string / normalizedString / token (the systematic pairs '
+        'of the property text: every pair of bound kinds over {-1,0,1,2,5}, of length kinds over {0..3}, of digit '
+        'kinds over {1..3}, of whiteSpace values; and seeded chains with bounds, lengths, digits, enumerations, '
+        'whiteSpace, fixed flags, 60% of the steps derived from the previous one by moving its values inwards), '
+        'each type judged on 21-28 values / 14 texts with white space. Attributes: (base, restriction) pairs of '
+        'attribute groups (the systematic single-attribute family use × fixed × type × wildcard crossed with itself, '
+        'and seeded groups of ≤3 attributes — local, qualified, reference to a global — × 6 types incl. a '
+        'user-defined restriction and no type × use × fixed/default × wildcard namespace (6) × processContents (3) '
+        '× notQName in 1.1; restrictions obtained by keeping / dropping / re-declaring each attribute with another '
+        'use, type, fixed value, adding attributes, changing or dropping the wildcard) judged on 28 attribute sets; '
+        'has_occurs_restriction on every pair of ranges over {0..3,∞}')
 TRUSTED = ['alphabet of representative child names (one per class of names the leaves of the two models can tell '
            'apart: every declared element name of either model, and for wildcards an undeclared target-namespace '
            'name, a name of each foreign namespace and an unqualified name); inclusion is proved for words over it',
            'children are simple-typed (xs:string) global elements: their own validity is C02; element-level clauses '
            '(type derivation, fixed, nillable, block) are ported as opaque inputs and exercised by a small family',
            'independent python reference matcher (harness/lib_cm.py) cross-checks the proved oracle on bounded words',
-           'facet and attribute pairs are judged by direct evaluation on a finite value/attribute catalogue (no Lean '
-           'model of attributes.py:508-605 / facets.py; the wildcard part of attribute restriction is C16)']
-ASSUMPTIONS = ['named model groups (xs:group ref) and xs:redefine are not generated: the `ref`-dependent branches of '
-               'the rules are ported but only exercised with ref=None',
-               'notNamespace/notQName wildcards are not generated here (their restriction rule is C16)']
+           'facets: a value is what the facets look at (position in a linear order, length, digit counts, equality '
+           'class), computed by the harness from the decoded python value; decoding itself, patterns, assertions, '
+           'list/union varieties, date/time (partial order) and float NaN are outside the facet model (C02)',
+           'attributes: validity of a lexical value for a simple type, value equality, type derivation and the '
+           'normalisation of fixed values are recorded from the real types (parameters `Sem`, `RCtx`, hypothesis '
+           '`TypeSem` of attr_restriction_sound_partial); validation of an attribute set is the C03 model, the '
+           'wildcard operations the C16 model (imported)']
+ASSUMPTIONS = ['xs:redefine is not generated', 'attribute groups (xs:attributeGroup ref) and the XSD 1.1 `inheritable` '
+               'clause of the attribute check are not generated / not modelled',
+               'value constraints (default / fixed) of the base type are valid for their own types (hypothesis hB)']
 
 KNOWN_ID = 'C14-F0'
 FINDINGS = VERIF / 'notes' / 'findings' / 'C14.json'
 FUEL = 4000
+FUEL_OC = 500          # open content: interleaving with a wildcard multiplies the derivative pairs
 KNOWN_SEEN: list[list[str]] = []      # every pair matched by C14-F0 on this run (v, base, derived)
 
 
@@ -141,8 +160,12 @@ def run_batch(ctx: Ctx, drv: Optional[Driver], bases: list[tuple], v11: bool, fa
         ctx.count(f'{fam}:base-built={b_ok}')
         for j, d in enumerate(derived[i]):
             D = schema.types[f'D{i}_{j}']
+            bx, dx = c14.expand_refs(b), c14.expand_refs(d)       # named groups: the trees they are built into
             case = {'v': '1.1' if v11 else '1.0', 'base': cm.show(b), 'derived': cm.show(d), 'change': tags[i][j],
-                    'b_ast': b, 'd_ast': d}
+                    'b_ast': bx, 'd_ast': dx}
+            if c14.has_refs(b) or c14.has_refs(d):
+                case['b_src'], case['d_src'] = b, d
+                ctx.count('named-groups:pair-with-references')
             parse, model, comp = type_errors(D)
             b_struct_ok = b_err[0] == 0 and b_err[2] == 0
             if comp or not b_struct_ok:
@@ -151,7 +174,7 @@ def run_batch(ctx: Ctx, drv: Optional[Driver], bases: list[tuple], v11: bool, fa
                 continue
             intro = c14.PairIntrospector(D.content, B.content)
             got = (c14.canon_ns(c14.ast_of_json(intro.d)), c14.canon_ns(c14.ast_of_json(intro.b)))
-            want = (c14.canon_ns(d), c14.canon_ns(b))
+            want = (c14.canon_ns(dx), c14.canon_ns(bx))
             if got != want:
                 ctx.mismatch('parsed groups differ from the declared models', case, got, want)
                 continue
@@ -165,7 +188,7 @@ def run_batch(ctx: Ctx, drv: Optional[Driver], bases: list[tuple], v11: bool, fa
                     'emptiable': [D.content.is_emptiable(), B.content.is_emptiable()],
                     'eff': [D.content.effective_min_occurs, D.content.effective_max_occurs,
                             B.content.effective_min_occurs, B.content.effective_max_occurs]}
-            alpha = c14.alphabet(d, b)
+            alpha = c14.alphabet(dx, bx)
             words = None
             if rng.random() < 0.25:
                 words = list(cm.words_upto(alpha, 3 if len(alpha) <= 5 else 2))
@@ -260,6 +283,138 @@ def evaluate_without_lean(ctx: Ctx, schema: Any, i: int, j: int, case: dict, imp
 
 
 # ---------------------------------------------------------------------------------------------
+# XSD 1.1 open content: (content model, open content) pairs
+
+KNOWN_OC = 'C14-F7'
+
+
+def run_oc_batch(ctx: Ctx, drv: Optional[Driver], bases: list[tuple], derived: list[list[tuple]]) -> None:
+    """bases: [(model, oc)], derived[i]: [(change, model, oc)]"""
+    schema = c14.build_oc(bases, [[(d, o) for _, d, o in ds] for ds in derived])
+    reqs, pend = [], []
+    for i, (b, ocb) in enumerate(bases):
+        B = schema.types[f'B{i}']
+        b_err = type_errors(B)
+        for j, (tag, d, ocd) in enumerate(derived[i]):
+            D = schema.types[f'D{i}_{j}']
+            case = {'v': '1.1', 'base': cm.show(b), 'derived': cm.show(d), 'change': tag, 'b_ast': b, 'd_ast': d,
+                    'oc_base': ocb, 'oc_derived': ocd}
+            parse, model, comp = type_errors(D)
+            if comp or b_err[0] or b_err[2]:
+                ctx.case(case, False, tag='1.1/open-content')
+                ctx.count('skipped:structural-error-in-open-content-pair')
+                continue
+            intro = c14.PairIntrospector(D.content, B.content)
+            jd, jb = c14.intro_oc(D.open_content, intro), c14.intro_oc(B.open_content, intro)
+            got = (c14.canon_ns(c14.ast_of_json(intro.d)), c14.canon_ns(c14.ast_of_json(intro.b)),
+                   c14.canon_oc(c14.oc_of_json(jd)), c14.canon_oc(c14.oc_of_json(jb)))
+            want = (c14.canon_ns(d), c14.canon_ns(b), c14.canon_oc(ocd), c14.canon_oc(ocb))
+            if got != want:
+                ctx.mismatch('parsed groups / open contents differ from the declared ones', case, got, want)
+                continue
+            impl = {'rejected': parse > 0, 'accepted_schema': b_err == (0, 0, 0) and parse == 0 and model == 0,
+                    'messages': sorted(str(e.message)[:60] for e in D.errors)}
+            alpha = c14.alphabet(d, b)
+            for oc in (ocd, ocb):                      # an open content admits names of every class
+                if oc is not None and len(oc) > 1:
+                    alpha += [x for x in c14.WILD_REPS if x not in alpha]
+            req = intro.request(True, alpha, FUEL_OC)
+            req['ocd'], req['ocb'] = jd, jb
+            reqs.append(req)
+            pend.append((i, j, case, impl, alpha))
+    answers = drv.query(reqs) if drv is not None and reqs else [None] * len(reqs)
+    for (i, j, case, impl, alpha), ans in zip(pend, answers):
+        b, d, ocb, ocd = case['b_ast'], case['d_ast'], case['oc_base'], case['oc_derived']
+        ctx.case(case, True, tag='1.1/open-content')
+        ctx.count('open-content:change:' + case['change'])
+        ctx.count('open-content:accepted=%s' % impl['accepted_schema'])
+        w = None
+        if ans is None:
+            if impl['accepted_schema']:
+                for cand in cm.words_upto(alpha, 3 if len(alpha) <= 6 else 2):
+                    if c14.ref_accepts_t(d, ocd, cand) and not c14.ref_accepts_t(b, ocb, cand):
+                        w = cand
+                        break
+            port_acc = plain = None
+        else:
+            if 'err' in ans:
+                ctx.mismatch('driver error (open content)', case, None, ans)
+                continue
+            ctx.traces += 1
+            if ans['acc'] == 'fuel':
+                ctx.mismatch('port ran out of fuel', case, impl, ans)
+                continue
+            port_acc = (ans['acc'] is True) and ans['ocacc']
+            if (not port_acc) != impl['rejected'] and ans['ext'] <= 1:
+                ctx.mismatch('restriction verdict with open content: port vs implementation', case, impl,
+                             {'acc': ans['acc'], 'ocacc': ans['ocacc']})
+            incl = ans['incl']
+            kind = incl if isinstance(incl, str) else 'witness'
+            ctx.count('open-content:oracle:' + kind)
+            plain = ans.get('inclPlain')
+            if kind != 'witness' or not impl['accepted_schema']:
+                continue
+            w = [c14.sym_of_qn(q) for q in incl['w']]
+            if not (c14.ref_accepts_t(d, ocd, w) and not c14.ref_accepts_t(b, ocb, w)):
+                ctx.mismatch('witness of the proved oracle rejected by the python reference (open content)', case, None, w)
+                continue
+        if w is None:
+            continue
+        vd, vb = confirm(schema, i, j, w)
+        if not (vd and not vb):
+            ctx.count('open-content:witness-not-confirmed(valid_d=%s,valid_b=%s)' % (vd, vb))
+            continue
+        detail = {'witness_children': w, 'valid_for_derived': vd, 'valid_for_base': vb, 'port_accepts': port_acc,
+                  'plain_models_included': None if plain is None else plain == 'included'}
+        fid = oc_known_match(case, detail)
+        if fid:
+            ctx.known_hit(fid, case, detail)
+            ctx.count('open-content:known:' + fid)
+        else:
+            ctx.failure('accepted restriction (open content) admits an instance that the base type rejects', case, detail)
+
+
+def oc_known_match(case: dict, detail: dict) -> Optional[str]:
+    """C14-F7: the derived type has an EMPTY content group and an open content that is not a restriction of the
+    base type's (the clause of complex_types.py:402 is skipped for an empty group).  C14-F0: the content models
+    alone (without the open contents) are already an unsound acceptance that the port reproduces."""
+    d = case['d_ast']
+    ocd = case['oc_derived']
+    if not d[4] and ocd is not None and ocd[0] != 'none' and not c14.REPAIRED_OC['on']:
+        return KNOWN_OC
+    if detail.get('port_accepts') is True and detail.get('plain_models_included') is False:
+        return KNOWN_ID
+    return None
+
+
+def open_content_family(ctx: Ctx, drv: Optional[Driver]) -> None:
+    rng = ctx.rng
+    c14.detect_repaired_oc()
+    ctx.extra['open_content_clause'] = 'repaired' if c14.REPAIRED_OC['on'] else 'pinned'
+    ocs = [None, ('none',)] + [(m, ns) for m in ('interleave', 'suffix') for ns in c14.OC_NS]
+
+    def small_base() -> tuple:
+        for _ in range(50):
+            m = c14.random_base(rng, True)
+            if len(cm.leaves(m)) <= 4 and m[1] != 'all':
+                return m
+        return ('g', 'sequence', 1, 1, [('e', 'a', 0, 1)])
+    bases, derived = [], []
+    for _ in range(ctx.pick(40, 300)):
+        b = small_base()
+        ocb = rng.choice(ocs + ocs[2:])
+        cands = c14.candidates(b, True)
+        ds = [('same-model', b, o) for o in rng.sample(ocs, 4)]
+        ds += [('empty-group', ('g', b[1], b[2], b[3], []), o) for o in rng.sample(ocs[2:], 2)]
+        for tag, d in rng.sample(cands[1:], min(4, len(cands) - 1)):
+            ds.append((tag, d, rng.choice([ocb, ocb, rng.choice(ocs)])))
+        bases.append((b, ocb))
+        derived.append(ds)
+    for k in range(0, len(bases), 6):
+        run_oc_batch(ctx, drv, bases[k:k + 6], derived[k:k + 6])
+
+
+# ---------------------------------------------------------------------------------------------
 # families
 
 def enumerated_bases() -> list[tuple]:
@@ -278,8 +433,14 @@ def families(ctx: Ctx):
         n = ctx.pick(60, 350)
         step = max(1, len(enum) // n)
         yield 'enum2', v11, enum[::step][:n], ctx.pick(30, 40)
-        rnd = [c14.random_base(rng, v11) for _ in range(ctx.pick(70, 350))]
+        rnd = [c14.random_base(rng, v11) for _ in range(ctx.pick(60, 350))]
         yield 'random', v11, rnd, ctx.pick(30, 40)
+        named = []
+        while len(named) < ctx.pick(24, 150):
+            m = cm.with_refs(rng, c14.random_base(rng, v11), 0.6)
+            if c14.has_refs(m):
+                named.append(m)
+        yield 'named-groups', v11, named, ctx.pick(25, 40)
 
 
 def occurs_table(ctx: Ctx, drv: Optional[Driver]) -> None:
@@ -344,7 +505,10 @@ def attr_known_match(info: dict, attrs: list, g: dict) -> Optional[str]:
               type's wildcard admits the name
       C14-F4  the restriction redeclares the attribute with type xs:anySimpleType over another base type
       C14-F5  the restriction declares an attribute that the base admits through its wildcard only, and that
-              wildcard assesses it (strict, or lax with a global declaration)"""
+              wildcard assesses it (strict, or lax with a global declaration)
+      C14-F6  both declare the attribute with fixed values that are equal as normalised texts, but the two types
+              compare the instance value with the fixed value in different value spaces (hypothesis
+              TypeSem.fixed_compat of the theorem does not hold for the recorded type facts)"""
     B, D, M = info['B'], info['D'], info['M']
     bd = {tuple(d['n']): d for d in B['decls']}
     dd = {tuple(d['n']): d for d in D['decls']}
@@ -362,6 +526,9 @@ def attr_known_match(info: dict, attrs: list, g: dict) -> Optional[str]:
         if b is not None and b['use'] != 'prohibited':
             if d['ty'] in any_simple and b['ty'] not in any_simple and (g is None or g['g1'] is False):
                 return 'C14-F4'
+            if d['fixed'] is not None and b['fixed'] is not None and d['ty'] != b['ty'] \
+                    and (g is None or g.get('sem') is False):
+                return 'C14-F6'
             continue
         bw = B['any']
         if bw is not None and (bw['pc'] == 'strict' or (bw['pc'] == 'lax' and q in globs)) \
@@ -448,7 +615,7 @@ def attr_judge(ctx: Ctx, fam: str, case: dict, errs: list, other: list, info: di
         ctx.mismatch('driver error (attrs)', case, None, ans)
         ans = None
     if ans is not None:
-        g = {k: ans[k] for k in ('g1', 'g2', 'g3')}
+        g = {k: ans[k] for k in ('g1', 'g2', 'g3', 'sem')}
         ctx.traces += 1
         if ax.canon_model_errs(ans['errs']) != errs:
             ctx.mismatch('attribute restriction check: port vs implementation', case, errs, ans['errs'])
@@ -467,7 +634,7 @@ def attr_judge(ctx: Ctx, fam: str, case: dict, errs: list, other: list, info: di
                 ctx.mismatch('validity for the base type: C03 model vs implementation', dict(case, attrs=bad[:3]),
                              vb, ans['validB'])
             # the instance of attr_restriction_sound_partial inside the model
-            if not ans['errs'] and all(g.values()):
+            if not ans['errs'] and all(g.values()):       # guards and (observable part of) hsem hold
                 ctx.count('attrs:theorem-instance-checked')
                 if any(x and not y for x, y in zip(ans['validD'], ans['validB'])):
                     ctx.mismatch('attr_restriction_sound_partial contradicted inside the model', case, None, ans)
@@ -648,12 +815,83 @@ def witnesses(ctx: Ctx) -> None:
             ctx.notes.append(f'witness of elem_wildcard_counterexample (v11={v11}) no longer fails on the implementation')
 
 
+def witnesses2(ctx: Ctx) -> None:
+    """witnesses of the facet and attribute `_counterexample` theorems on the real code"""
+    import xmlschema
+    from harness import lib_c14facets as fx
+    from harness import lib_c14attrs as ax
+
+    def note(name: str, v: str, ok: bool, fid: Optional[str], what: str) -> None:
+        ctx.case({'witness': name, 'v': v}, True, tag='lean-counterexample-witness')
+        if ok:
+            if fid:
+                ctx.known_hit(fid, {'witness': name, 'v': v}, what)
+            ctx.count('witness-reconfirmed:' + name)
+        else:
+            ctx.notes.append(f'witness of {name} ({v}) no longer behaves as the theorem says on the implementation: {what}')
+
+    for v, cls in (('1.0', xmlschema.XMLSchema10), ('1.1', xmlschema.XMLSchema11)):
+        # facet_whitespace_lexical_counterexample (C14-F3)
+        s1 = cls(fx.schema_text([('string', [[('length', '3', False)], [('whiteSpace', 'collapse', False)]])]), validation='lax')
+        note('facet_whitespace_lexical_counterexample', v,
+             not s1.all_errors and fx.instance_valid(s1, 'e0_1', ' abc ') and not fx.instance_valid(s1, 'e0_0', ' abc '),
+             KNOWN_WS, "' abc ' valid for the collapsing derived type, invalid for the base type of length 3")
+        # facet_unchecked_widening_counterexample: the widening step is refused by the build
+        s2 = cls(fx.schema_text([('integer', [[('minInclusive', '5', False)], [('minInclusive', '0', False)]])]), validation='lax')
+        note('facet_unchecked_widening_counterexample', v, bool(s2.all_errors), None, 'minInclusive 0 over 5 must be refused')
+        v11 = v == '1.1'
+        for name, fid, b, d, attrs in (
+            ('attr_prohibited_wildcard_counterexample', 'C14-F2',
+             {'decls': [('a', 'optional', None, 'xs:int', None)], 'any': ('##any', 'lax', None)},
+             {'decls': [('a', 'prohibited', None, 'xs:int', None)], 'any': ('##any', 'lax', None)}, [('a', 'x')]),
+            ('attr_anysimpletype_counterexample', 'C14-F4',
+             {'decls': [('a', 'optional', None, 'xs:int', None)], 'any': None},
+             {'decls': [('a', 'optional', None, None, None)], 'any': None}, [('a', 'x')]),
+            ('attr_strict_wildcard_counterexample', 'C14-F5',
+             {'decls': [], 'any': ('##any', 'strict', None)},
+             {'decls': [('a', 'optional', None, 'xs:int', None)], 'any': None}, [('a', '3')])):
+            sc = ax.build(b, d, v11)
+            acc = not sc.all_errors
+            wid = acc and ax.valid_instance(sc, 'ed', attrs) and not ax.valid_instance(sc, 'eb', attrs)
+            if name == 'attr_anysimpletype_counterexample' and not ATTR_MODE['anyExempt']:
+                note(name, v, not acc, None, 'repaired rule: the redeclaration with xs:anySimpleType is refused')
+            else:
+                note(name, v, wid, fid, f'accepted={acc}')
+
+
+def witness_oc(ctx: Ctx) -> None:
+    """open_content_empty_group_counterexample on the real code"""
+    b = (('g', 'sequence', 1, 1, [('e', 'a', 0, 1)]), ('interleave', 'urn:o'))
+    d = (('g', 'sequence', 1, 1, []), ('interleave', '##any'))
+    schema = c14.build_oc([b], [[d]])
+    acc = not schema.all_errors
+    vd, vb = confirm(schema, 0, 0, ['b']) if acc else (None, None)
+    case = {'witness': 'open_content_empty_group_counterexample', 'v': '1.1'}
+    ctx.case(case, True, tag='lean-counterexample-witness')
+    if c14.REPAIRED_OC['on']:
+        if acc:
+            ctx.notes.append('open_content_empty_group_counterexample: repaired tree accepts the witness')
+        else:
+            ctx.count('witness-reconfirmed:open_content_empty_group_counterexample(refused)')
+    elif acc and vd and not vb:
+        ctx.known_hit(KNOWN_OC, case, 'accepted; <t:b/> valid for the derived type only')
+        ctx.count('witness-reconfirmed:open_content_empty_group_counterexample')
+    else:
+        ctx.notes.append(f'open_content_empty_group_counterexample no longer fails (accepted={acc}, valid_d={vd}, valid_b={vb})')
+
+
 def run(ctx: Ctx, driver_ok: bool) -> None:
+    register_findings(ctx)
+    ctx.extra['zero_occurs_and_empty_group_clauses'] = 'repaired' if c14.detect_repaired() else 'pinned'
     drv = Driver('drv_c14') if driver_ok else None
     occurs_table(ctx, drv)
     witnesses(ctx)
     strict_sample(ctx)
-    second_part(ctx)
+    facets_family(ctx, drv)
+    attrs_family(ctx, drv)
+    witnesses2(ctx)
+    open_content_family(ctx, drv)
+    witness_oc(ctx)
     if drv is None:
         ctx.notes.append('Lean driver unavailable: property evaluated on the enumerated family with the python '
                          'reference matcher; known pairs = the list in notes/findings/C14.json')
@@ -671,11 +909,18 @@ def search(ctx: Ctx) -> None:
     """a proof obligation or the correspondence broke and no failing input was found yet: widen the
     exploration (thorough families).  The Lean driver is used whenever its binary exists (the match rule
     of C14-F0 needs the port); without it only the enumerated family is explored (`lean_less`)."""
+    register_findings(ctx)
+    c14.detect_repaired()
     saved = ctx.tier
     ctx.tier = 'thorough'
     ctx.budget_s += 600
     drv = Driver('drv_c14') if Driver('drv_c14').path.exists() else None
     try:
+        facets_family(ctx, drv)
+        if not ctx.failures:
+            attrs_family(ctx, drv)
+        if ctx.failures:
+            return
         if drv is None:
             lean_less(ctx)
             return
@@ -728,27 +973,98 @@ def replay(ctx: Ctx, obj: dict) -> int:
         r = ParticleMixin(lo, hi).has_occurs_restriction(ParticleMixin(olo, ohi))
         print('implementation: has_occurs_restriction =', r)
         return 1 if r else 0
-    if 'facets' in case or ('base' in case and 'b_ast' not in case):
+    if 'steps' in case:                   # facet chain
         import xmlschema
+        from harness import lib_c14facets as fx
         cls = xmlschema.XMLSchema11 if case['v'] == '1.1' else xmlschema.XMLSchema10
-        text = facet_schema(*case['facets']) if 'facets' in case else attr_schema(tuple(case['base']), tuple(case['derived']))
-        schema = cls(text, validation='lax')
+        steps = [[tuple(f) for f in st] for st in case['steps']]
+        schema = cls(fx.schema_text([(case['prim'], steps)]), validation='lax')
+        print('implementation: errors per step =', [fx.step_errors(schema.types[f'T0_{i}']) for i in range(len(steps))])
         det = obj.get('detail') or {}
-        e1 = c14.ET.Element('{urn:t}ed', det.get('attributes') or {})
-        e2 = c14.ET.Element('{urn:t}eb', det.get('attributes') or {})
-        e1.text = e2.text = det.get('text')
-        vd, vb = schema.elements['ed'].is_valid(e1), schema.elements['eb'].is_valid(e2)
-        print('implementation: schema errors =', [str(e.message) for e in schema.all_errors],
-              ' valid for derived =', vd, ' valid for base =', vb)
-        bad = not schema.all_errors and vd and not vb
-        if bad and 'facets' not in case and attr_known_match(case, det):
-            print('judgement: known finding C14-F1 (prohibited base attribute re-admitted)')
-            return 0
+        bad = 0
+        if isinstance(det, dict) and 'text' in det:
+            i, t = det['level'], det['text']
+            vd, vb = fx.instance_valid(schema, f'e0_{i}', t), fx.instance_valid(schema, f'e0_{i - 1}', t)
+            print(f'text {t!r}: valid for step {i} = {vd}, valid for its base = {vb}')
+            if not schema.all_errors and vd and not vb:
+                wsd = schema.types[f'T0_{i}'].white_space or 'preserve'
+                wsb = schema.types[f'T0_{i - 1}'].white_space or 'preserve'
+                nd, nb = fx.py_norm(wsd, t), fx.py_norm(wsb, t)
+                d2 = {'ws_derived': wsd, 'ws_base': wsb, 'normalised_derived': nd, 'normalised_base': nb,
+                      'base_accepts_normalised': fx.instance_valid(schema, f'e0_{i - 1}', nd)}
+                if ws_known_match(case, d2):
+                    print('judgement: known finding C14-F3 (whiteSpace is pre-lexical)')
+                else:
+                    bad = 1
+        keys = fx.Interner()
+        numeric = case['prim'] in fx.NUMERIC
+        chain, _ = fx.ser_chain(schema.types[f'T0_{len(steps) - 1}'], numeric, keys)
+        ans = Driver('drv_c14').query([{'op': 'facets', 'chain': chain}])[0]
+        print('lean: checkStep per step (nearest first) =', [st['errs'] for st in ans.get('steps', [])][:len(steps)])
+        print('judgement:', 'VIOLATION' if bad else 'no violation on this input')
+        return bad
+    if 'base' in case and 'b_ast' not in case:       # attribute pair
+        from harness import lib_c14attrs as ax
+        register_findings(ctx)
+        detect_attr_mode(ctx)
+        b = {'decls': [tuple(x) for x in case['base']['decls']], 'any': None if case['base']['any'] is None else tuple(case['base']['any'])}
+        d = {'decls': [tuple(x) for x in case['derived']['decls']], 'any': None if case['derived']['any'] is None else tuple(case['derived']['any'])}
+        v11 = case['v'] == '1.1'
+        det = obj.get('detail') or {}
+        attrs = [tuple(p) for p in (det.get('attributes') or [])] if isinstance(det, dict) else []
+        req, (_, schema, errs, other, info, vd, vb) = attr_pair(ctx, v11, b, d, [attrs], 'replay')
+        ans = Driver('drv_c14').query([req])[0]
+        print('implementation: restriction errors =', errs, ' other errors =', other, ' valid for derived =', vd[0],
+              ' valid for base =', vb[0])
+        print('lean: check =', ans.get('errs'), ' guards =', {k: ans.get(k) for k in ('g1', 'g2', 'g3', 'sem')},
+              ' validD =', ans.get('validD'), ' validB =', ans.get('validB'))
+        bad = not errs and not other and vd[0] and not vb[0]
+        if bad:
+            fid = attr_known_match(info, attrs, {k: ans.get(k) for k in ('g1', 'g2', 'g3', 'sem')})
+            if fid:
+                print(f'judgement: known finding {fid}')
+                return 0
         print('judgement:', 'VIOLATION' if bad else 'no violation on this input')
         return 1 if bad else 0
     if 'b_ast' not in case:
         return 0
-    b, d = tup(case['b_ast']), tup(case['d_ast'])
+    if 'oc_base' in case:                   # open-content pair
+        register_findings(ctx)
+        c14.detect_repaired()
+        c14.detect_repaired_oc()
+        b, d = tup(case['b_ast']), tup(case['d_ast'])
+        ocb = None if case['oc_base'] is None else tuple(case['oc_base'])
+        ocd = None if case['oc_derived'] is None else tuple(case['oc_derived'])
+        schema = c14.build_oc([(b, ocb)], [[(d, ocd)]])
+        B, D = schema.types['B0'], schema.types['D0_0']
+        print('implementation: errors on the derived type =', [str(e.message)[:90] for e in D.errors],
+              ' other errors =', len(schema.all_errors) - len(D.errors))
+        intro = c14.PairIntrospector(D.content, B.content)
+        req = intro.request(True, c14.alphabet(d, b) + [x for x in c14.WILD_REPS if x not in c14.alphabet(d, b)], FUEL_OC)
+        req['ocd'], req['ocb'] = c14.intro_oc(D.open_content, intro), c14.intro_oc(B.open_content, intro)
+        ans = Driver('drv_c14').query([req])[0]
+        print('lean: content rule =', ans.get('acc'), ' open-content clause =', ans.get('ocacc'), ' inclusion oracle =',
+              ans.get('incl'), ' content models alone =', ans.get('inclPlain'))
+        det = obj.get('detail') or {}
+        w = det.get('witness_children') if isinstance(det, dict) else None
+        if w is None and isinstance(ans.get('incl'), dict):
+            w = [c14.sym_of_qn(q) for q in ans['incl']['w']]
+        if w is not None and not schema.all_errors:
+            vd, vb = confirm(schema, 0, 0, w)
+            print(f'children {w}: valid for derived = {vd}, valid for base = {vb}')
+            if vd and not vb:
+                det2 = {'port_accepts': ans.get('acc') is True and ans.get('ocacc'),
+                        'plain_models_included': ans.get('inclPlain') == 'included'}
+                fid = oc_known_match(case, det2)
+                if fid:
+                    print(f'judgement: known finding {fid}')
+                    return 0
+                print('judgement: VIOLATION')
+                return 1
+        print('judgement: no violation on this input')
+        return 0
+    c14.detect_repaired()
+    b, d = tup(case.get('b_src') or case['b_ast']), tup(case.get('d_src') or case['d_ast'])
     v11 = case['v'] == '1.1'
     schema = c14.build([b], [[d]], v11)
     B, D = schema.types['B0'], schema.types['D0_0']
@@ -760,7 +1076,7 @@ def replay(ctx: Ctx, obj: dict) -> int:
         print('implementation: is_restriction raises', type(e).__name__)
     accepted = type_errors(B) == (0, 0, 0) and type_errors(D) == (0, 0, 0)
     intro = c14.PairIntrospector(D.content, B.content)
-    alpha = c14.alphabet(d, b)
+    alpha = c14.alphabet(c14.expand_refs(d), c14.expand_refs(b))
     ans = Driver('drv_c14').query([intro.request(v11, alpha, FUEL)])[0]
     print('lean: port is_restriction =', ans.get('m'), ' port schema verdict accepted =', ans.get('acc'),
           ' inclusion oracle =', ans.get('incl'))
